@@ -162,7 +162,7 @@ func (g *progGen) pres(allowEval bool) []string {
 	var out []string
 	for g.r.Chance(35) && len(out) < 3 {
 		g.pad()
-		switch k := g.r.Intn(10); {
+		switch k := g.r.Intn(14); {
 		case k < 3:
 			out = append(out, fmt.Sprintf("c:id:%d", g.idx()))
 			g.w("nop();")
@@ -173,18 +173,66 @@ func (g *progGen) pres(allowEval bool) []string {
 			out = append(out, fmt.Sprintf("c:brk:%d", g.idx()))
 			g.w("Math[\"abs\"](1);")
 		case k < 8:
-			out = append(out, fmt.Sprintf("c:oth:%d", g.idx()))
-			g.w("(function(){})();")
-		default:
-			if allowEval {
-				out = append(out, fmt.Sprintf("e:%d", g.idx()))
-				g.w("eval(\"1\");")
+			if allowEval { // an unrecorded callee: kept out of the plain stream
+				out = append(out, fmt.Sprintf("c:oth:%d", g.idx()))
+				g.w("(function(){})();")
 			} else {
 				g.w("1;")
+			}
+		case k < 9:
+			out = append(out, fmt.Sprintf("e:%d", g.idx()))
+			g.w("eval(\"1\");")
+		case k < 10:
+			// a call that is left by an exception thrown from eval code in the callee; caught here
+			g.w("try { ")
+			out = append(out, fmt.Sprintf("c:id:%d", g.idx()))
+			g.w("thr(); } catch (e) {}")
+		default:
+			// a direct eval whose code makes calls and then completes or throws; a throw is caught in THIS activation
+			ev := evalSrcs[g.r.Intn(len(evalSrcs))]
+			k := len(g.files)
+			g.files = append(g.files, ev.src)
+			var inner []string
+			for _, o := range ev.calls {
+				inner = append(inner, fmt.Sprint(o+1))
+			}
+			in := "-"
+			if len(inner) > 0 {
+				in = strings.Join(inner, ".")
+			}
+			if ev.throws {
+				g.w("try {")
+				g.pad()
+				out = append(out, fmt.Sprintf("x:%d:%d:%s:t", g.idx(), k, in))
+				g.w("eval(" + jsStr(ev.src) + "); } catch (e) {")
+				if g.r.Bool() {
+					g.w(" ee = e; ")
+				}
+				g.w("}")
+			} else {
+				out = append(out, fmt.Sprintf("x:%d:%d:%s:n", g.idx(), k, in))
+				g.w("eval(" + jsStr(ev.src) + ");")
 			}
 		}
 	}
 	return out
+}
+
+// eval sources used as completed pre-statements: offsets of the calls they complete, and whether they throw at run time
+var evalSrcs = []struct {
+	src    string
+	calls  []int
+	throws bool
+}{
+	{"throw 1;", nil, true},
+	{"zzz;", nil, true},
+	{"null.p;", nil, true},
+	{"idf(1); throw 2;", []int{0}, true},
+	{"idf(1);\n  idf(2); zzz;", []int{0, 10}, true},
+	{"\n\nnop(); nf();", []int{2}, true}, // nf is not a function: the error comes before its site is recorded
+	{"new K0(); (function(){ throw new Error('x'); })();", []int{4, -2}, true},
+	{"idf(1); 2;", []int{0}, false},
+	{"var q9 = idf(idf(3));\nnop();", []int{13, 9, 22}, false},
 }
 
 type errSpec struct {
@@ -632,7 +680,7 @@ func genTrace(r *h.Rng, depth int, limit int, sh shape, exotic bool, kind string
 	for i := range levels {
 		levels[i] = &level{}
 	}
-	g.w("var nf = 1, nu, nn = null, nobj = {p: 1}, arr = [], nmb = 1, ev = eval, cyc = {}; cyc.c = cyc; function nop(){}; function idf(x){ return x; }; function K0(){};")
+	g.w("var nf = 1, nu, nn = null, nobj = {p: 1}, arr = [], nmb = 1, ev = eval, cyc = {}; cyc.c = cyc; function nop(){}; function idf(x){ return x; }; function K0(){}; function thr(){ eval(\"throw 1\"); };")
 	g.pad()
 	var extra *level
 	var raiseTok string
@@ -835,6 +883,9 @@ func genAll(c *h.Ctx) {
 		}
 		if strings.Contains(line, "(c.") || strings.Contains(line, "lc.") || strings.Contains(line, ")c.") {
 			keys = append(keys, "trace:call-inside-argument-list")
+		}
+		if strings.Contains(line, ":t,") || strings.Contains(line, ":t+") || strings.Contains(line, ":t ") {
+			keys = append(keys, "trace:after-caught-throwing-direct-eval")
 		}
 		if strings.Contains(line, "ei,id,-,") {
 			keys = append(keys, "trace:through-indirect-eval")
